@@ -343,6 +343,9 @@ impl QueryRouter {
             }
 
             Command::SetPrimaryReads => {
+                // The command is matched case-insensitively, so is its value.
+                let value = value.to_ascii_lowercase();
+
                 if value == "on" {
                     debug!("Setting primary reads to on");
                     self.primary_reads_enabled = Some(true);
